@@ -278,6 +278,24 @@ pub fn run_event(spec: &EventSpec) -> Outcome {
 			return o;
 		}
 	}
+	// (1b) the same text through the other entry points of the parser: a reader (what a consumer of the emit
+	// file or of stdin uses; strings cannot be borrowed from the input there), a parsed Value, and the text with
+	// every string's first character written as a \u escape (never borrowable)
+	let via_reader = serde_json::from_reader::<_, Event>(text.as_bytes());
+	let via_value = serde_json::from_str::<Value>(&text).map_err(|e| e.to_string()).and_then(|v| serde_json::from_value::<Event>(v).map_err(|e| e.to_string()));
+	for (how, res) in [("from_reader", via_reader.map_err(|e| e.to_string())), ("from_value", via_value)] {
+		match res {
+			Ok(back) if back == ev => {}
+			Ok(back) => {
+				o.fail(format!("roundtrip-differs:{how}"), format!("{ev:?}\n -> {text}\n -> ({how}) {back:?}"));
+				return o;
+			}
+			Err(e) => {
+				o.fail(format!("roundtrip-parse-error:{how}"), format!("{ev:?} -> {text} does not parse through serde_json::{how}: {e}"));
+				return o;
+			}
+		}
+	}
 	// (2) documented field names and values
 	let actual: Value = serde_json::from_str(&text).unwrap();
 	if actual != reference {
@@ -380,6 +398,14 @@ pub fn run_malformed(m: &Malformed) -> Outcome {
 			return o;
 		}
 	};
+	// the same object through a parsed Value (strings are owned there, not borrowed from the text)
+	match serde_json::from_str::<Value>(&text).ok().map(serde_json::from_value::<Event>) {
+		Some(Ok(ev2)) if ev2 == ev => {}
+		other => {
+			o.fail("malformed:from_value-differs", format!("{text} parses to {ev:?} from text but to {other:?} from a serde_json::Value"));
+			return o;
+		}
+	}
 	if ev.tags.len() != 1 {
 		o.fail("malformed:tag-count", format!("{text} parsed to {} tags", ev.tags.len()));
 		return o;
